@@ -39,16 +39,25 @@ func KernelVerdict(prog []cbpf.Raw) (accepted bool, errno int, err error) {
 		buf[i*8+3] = in.Jf
 		binary.LittleEndian.PutUint32(buf[i*8+4:], in.K)
 	}
-	ctx, cancel := context.WithTimeout(context.Background(), 20*time.Second)
-	defer cancel()
-	cmd := exec.CommandContext(ctx, bin)
-	cmd.Env = append(os.Environ(), "GODEBUG=asyncpreemptoff=1", "GOGC=off", "GOMAXPROCS=2")
-	cmd.Stdin = bytes.NewReader(buf)
-	cmd.WaitDelay = 2 * time.Second
-	out, runErr := cmd.Output()
+	// a helper that gives no verdict (time limit on a loaded machine) is asked again, with more patience
 	var ret int
-	if _, e := fmt.Sscanf(string(out), "ret=%d errno=%d", &ret, &errno); e != nil {
-		return false, 0, fmt.Errorf("kverify gave no verdict (output %q, %v)", string(out), runErr)
+	var lastErr error
+	for attempt, limit := range []time.Duration{20 * time.Second, 60 * time.Second, 120 * time.Second} {
+		ctx, cancel := context.WithTimeout(context.Background(), limit)
+		cmd := exec.CommandContext(ctx, bin)
+		cmd.Env = append(os.Environ(), "GODEBUG=asyncpreemptoff=1", "GOGC=off", "GOMAXPROCS=2")
+		cmd.Stdin = bytes.NewReader(buf)
+		cmd.WaitDelay = 2 * time.Second
+		out, runErr := cmd.Output()
+		cancel()
+		if _, e := fmt.Sscanf(string(out), "ret=%d errno=%d", &ret, &errno); e == nil {
+			lastErr = nil
+			break
+		}
+		lastErr = fmt.Errorf("kverify gave no verdict (attempt %d, output %q, %v)", attempt+1, string(out), runErr)
+	}
+	if lastErr != nil {
+		return false, 0, lastErr
 	}
 	return ret == 0 && errno == 0, errno, nil
 }
